@@ -117,6 +117,12 @@ func GetPointByNodeId(bucket diskstore.ReadOnlyBucket, nodeId uint64, withData b
 	var data []byte
 	if withData {
 		data = bucket.Get(conversion.NodeKey(nodeId, 'd'))
+		// The value a bucket returns is only valid while its transaction is
+		// open (bbolt hands out slices of its memory map). Search results
+		// outlive the read transaction, so they must own their bytes:
+		// otherwise a later write that remaps or reuses the file crashes the
+		// process or changes the document under the caller.
+		data = append([]byte(nil), data...)
 	}
 	sp := ShardPoint{
 		Point: models.Point{
